@@ -117,7 +117,7 @@ func init() {
 				"the page-size clause checks the Writer field's documented promise (zero padding, minimum number of pages per chunk) and needs the write log, so it is skipped for raw bytes.Buffer / *os.File sinks",
 				"the race detector only sees the interleavings that occurred",
 			},
-			MinEvals: 1500, MinClasses: 150,
+			MinEvals: 600, MinClasses: 150,
 		}
 	}}
 }
